@@ -185,7 +185,7 @@ def observe(chk, keys, tag, nproc=NPROC, full=False):
     metas = [m for _, m in res]
     # per process: 2 sequential instances + NTHREADS threads for every key, plus the interleaved pair (thread 100: item-wise
     # adapter kinds) and the instances constructed after an unrelated change_rng_seed (thread 101: ProbOrdMinHash2 keys)
-    extra = sum(1 for k in keys if k["entry"] == "item" and not k["kind"].startswith(("dens", "rev", "ord2"))) \
+    extra = 2 * sum(1 for k in keys if k["entry"] == "item" and not k["kind"].startswith(("dens", "rev", "ord2"))) \
         + sum(1 for k in keys if k["kind"].startswith("ord2"))
     want = nproc * ((2 + NTHREADS) * len(keys) + extra)
     if len(rows) != want:
